@@ -198,6 +198,9 @@ func c24Number(c *fx.Ctx, lit string, kind string) {
 		return
 	}
 	c.Distinct("nontrivial", lit)
+	if c.Index()%7 == 0 && len(lit) > 6 {
+		c.Sample(fmt.Sprintf("%q decodes to %s (reference %s)", lit, n, want))
+	}
 }
 
 // isSyntaxError: the document was refused by the ANTLR lexer/parser (as opposed to the value conversion behind it).
